@@ -209,6 +209,48 @@ def hostmaskPatternEqual(pattern, hostmask):
         _hostmaskPatternEqualCache[(pattern, hostmask)] = b
         return b
 
+def _hostmaskPatternClass(c):
+    """A canonical representative of the characters that the (non-wildcard)
+    pattern character c matches; see _hostmaskPatternEqual."""
+    if c in '[{':
+        return '{'
+    elif c in '}]':
+        return '}'
+    elif c in '|\\':
+        return '|'
+    elif c in '^~':
+        return '^'
+    elif 'A' <= c <= 'Z':
+        return c.lower()
+    else:
+        return c
+
+def hostmaskPatternsIntersect(pattern1, pattern2):
+    """pattern1, pattern2 => bool
+    Returns True if some hostmask matches both hostmask patterns."""
+    (p, q) = (pattern1, pattern2)
+    # row[j] is True if some string is matched by both p[i:] and q[j:].
+    row = [False] * (len(q) + 1)
+    row[len(q)] = True
+    for j in range(len(q) - 1, -1, -1):
+        row[j] = q[j] == '*' and row[j+1]
+    for i in range(len(p) - 1, -1, -1):
+        below = row
+        row = [False] * (len(q) + 1)
+        row[len(q)] = p[i] == '*' and below[len(q)]
+        for j in range(len(q) - 1, -1, -1):
+            (a, b) = (p[i], q[j])
+            if a == '*':
+                row[j] = below[j] or row[j+1] or below[j+1]
+            elif b == '*':
+                row[j] = row[j+1] or below[j] or below[j+1]
+            elif a == '?' or b == '?':
+                row[j] = below[j+1]
+            else:
+                row[j] = below[j+1] and \
+                    _hostmaskPatternClass(a) == _hostmaskPatternClass(b)
+    return row[0]
+
 def banmask(hostmask):
     """Returns a properly generic banning hostmask for a hostmask.
 
